@@ -20,7 +20,7 @@ PID = "C10"
 def build(chains, root):
     jobs = []
     for i, ch in enumerate(chains):
-        jobs.append(dict(cmd="run", lang="python", files={"p.py": ch.render()}, dir=os.path.join(root, "r%04d" % i), settings=T.SETTINGS,
+        jobs.append(dict(cmd="run", lang="python", files={"p.py": ch.render()}, dir=os.path.join(root, "r%04d" % i), settings=T.SETTINGS_SPLIT if ch.split else T.SETTINGS,
                          flags=["--nomock"], export=["gir", "taint"], timeout=900, _chain=ch))
     return jobs
 
@@ -63,7 +63,7 @@ def run(tier, seed):
             v.machinery_failure("the machine could not execute %s: %s" % (vd["case"], vd["clause"]))
             continue
         n_bad += 1
-        src, conns, snk = vd["case"].split("__")
+        src, conns, snk = vd["case"].replace("@split", "").split("__")
         v.violation("flow_missed:%s_source:%s:%s_sink" % (src, conns, snk), {"chain": vd["case"], "missed": vd.get("missed"), "observed_by_machine": vd.get("observed"),
                                                                               "reported_by_lian": c["flows"], "source": c["source"]})
     if n_nontrivial < len(cases) // 2 and not v.machinery:
